@@ -56,6 +56,7 @@ LOG: list = []
 # ------------------------------------------------------------------------------------ recorders
 
 _REC: dict = {}
+SNAPSHOT = False
 
 
 def recorder(base):
@@ -68,9 +69,18 @@ def recorder(base):
         __slots__ = ()
 
         def element_decode(self, data, xsd_element, xsd_type=None, level=0):
+            # decoded values are mutated after the call (DataElement: the parent sets `.tail`; default convention:
+            # `result.append(value)` of base.py:414 appends to a list that IS the value of an earlier child):
+            # snapshot what goes in and out
+            snap = None
+            if SNAPSHOT:
+                snap = {'in': [L.canon(it[1]) for it in (data.content or []) if not isinstance(it[0], int)],
+                        'text': L.canon(data.text)}
             r = super().element_decode(data, xsd_element, xsd_type, level)
+            if snap is not None:
+                snap['out'] = L.canon(r)
             LOG.append(('dec', data, xsd_element, xsd_type or xsd_element.type, level, r,
-                        self.get_effective_xmlns(data.xmlns, level, xsd_element), self))
+                        self.get_effective_xmlns(data.xmlns, level, xsd_element), self, snap))
             return r
 
         def element_encode(self, obj, xsd_element, level=0):
@@ -102,6 +112,8 @@ def name_candidates(obj) -> set:
                 for pre in ('@', '_'):
                     if k.startswith(pre) and len(k) > 1:
                         out.add(k[1:])
+    if hasattr(obj, 'attrib') and isinstance(getattr(obj, 'attrib'), MutableMapping):
+        keys(obj.attrib)                      # DataElement
     if isinstance(obj, MutableMapping):
         keys(obj)
         for v in obj.values():
@@ -122,6 +134,19 @@ def unmap_tables(conv, obj, xsd_element) -> dict:
     """what the real `unmap_qname` answers, in the namespace context of this call, for every string of the
     data that can be used as a name at this level (the mapper is a parameter of the model)"""
     tags, attrs = [], []
+    if type(conv).__name__ == 'XMLSchemaConverter' and isinstance(obj, MutableMapping):
+        # the default convention un-maps a child key in the xmlns context of its value (base.py:477-482)
+        for k, v in obj.items():
+            if not isinstance(k, str):
+                continue
+            try:
+                if isinstance(v, MutableSequence) and v:
+                    x = conv.get_xmlns_from_data(v[0]) if isinstance(v[0], (MutableMapping, MutableSequence)) else None
+                else:
+                    x = conv.get_xmlns_from_data(v)
+                tags.append([conv.unmap_qname(k, xmlns=x), k])
+            except Exception:
+                pass
     for s in sorted(name_candidates(obj)):
         try:
             tags.append([conv.unmap_qname(s), s])
@@ -139,7 +164,7 @@ def conv_classes() -> dict:
 
 
 LOSSLESS = ('jsonml', 'dataelement')
-MODELLED = ('jsonml',)
+MODELLED = ('jsonml', 'dataelement', 'default')
 
 
 def option_sets(name: str, rng, mixed_text: bool) -> list[dict]:
@@ -183,13 +208,15 @@ class SchemaTable:
             from xmlschema.validators import XsdElement
             for e in group.iter_elements():
                 if isinstance(e, XsdElement):
-                    children.append({'name': e.name, 'ty': self.type_id(e, e.type), 'single': bool(e.is_single())})
+                    children.append({'name': e.name, 'ty': self.type_id(e, e.type), 'single': bool(e.is_single()),
+                                     'isList': bool(e.type and e.type.is_list())})
         self.facts[i] = {
             'hasGroup': group is not None, 'simple': simple, 'mixed': bool(getattr(xsd_type, 'mixed', False)),
             'emptyContent': (not simple) and not getattr(xsd_type, 'content', True), 'complex': bool(xsd_type.is_complex()),
             'singleGroup': bool(group.is_single()) if group is not None else False,
             'isList': bool(xsd_type.is_list()), 'anyType': xsd_type.name == '{http://www.w3.org/2001/XMLSchema}anyType',
-            'attrs': [k for k in xsd_element.attributes if k], 'children': children}
+            'attrs': [k for k in xsd_element.attributes if k], 'children': children,
+            'isQName': bool(xsd_type.is_qname())}
         return i
 
 
@@ -234,7 +261,7 @@ def decode_log_to_tree(log: list, table: SchemaTable, mapper: Mapper):
     for ent in log:
         if ent[0] != 'dec':
             continue
-        _, data, xe, xt, level, result, eff_xmlns, conv = ent
+        _, data, xe, xt, level, result, eff_xmlns, conv, snap = ent
         ty = table.type_id(xe, xt)
         mapper.add(mapper.tags, data.tag, conv.map_qname(data.tag))
         for k, _v in (data.attributes or []):
@@ -260,12 +287,12 @@ def decode_log_to_tree(log: list, table: SchemaTable, mapper: Mapper):
                 single = bool(it[2].is_single()) if it[2] is not None else False
                 mapper.add(mapper.tags, kid['tag'], it[0])
                 items.append({'n': [kid['tag'], single, kid]})
-                items1.append({'n': [kid['tag'], single, L.canon(it[1])]})
+                items1.append({'n': [kid['tag'], single, snap['in'][ki - 1] if snap else L.canon(it[1])]})
         node = {'ty': ty, 'tag': data.tag, 'attrs': [[k, L.canon(v)] for k, v in (data.attributes or [])],
                 'xmlns': [list(p) for p in (eff_xmlns or [])], 'items': items}
         if data.text is not None:
-            node['text'] = L.canon(data.text)
-        node['_one'] = {'items': items1, 'result': L.canon(result)}
+            node['text'] = snap['text'] if snap else L.canon(data.text)
+        node['_one'] = {'items': items1, 'result': snap['out'] if snap else L.canon(result)}
         stack.append(node)
         levels.append(level)
     if len(stack) != 1:
@@ -316,15 +343,24 @@ def encode_log_to_tree(log: list):
             return None
         pos[0] += 1
         ed = ed_json(e[4])
+        # the children are encoded in the order in which XsdGroup.raw_encode emits them: the content order for
+        # the lossless converters, the order of iter_collapsed_content otherwise (groups.py:1140-1143)
+        kids = []
+        for it in ed['items']:
+            if 'n' in it:
+                kid = build(level + 1)
+                if kid is None:
+                    return None
+                kids.append(kid)
         items = []
         for it in ed['items']:
             if 'c' in it:
                 items.append(it)
             else:
-                kid = build(level + 1)
-                if kid is None:
+                j = next((i for i, k in enumerate(kids) if k['tag'] == it['n'][0]), None)
+                if j is None:
                     return None
-                items.append({'n': [it['n'][0], kid]})
+                items.append({'n': [it['n'][0], kids.pop(j)]})
         ed['items'] = items
         return ed
     t = build(0)
@@ -429,6 +465,8 @@ def roundtrip(ctx: Ctx, u: Unit, cname: str, opts: dict, want_log=False) -> dict
     scope, why = in_scope(u, cname, opts)
     res['in_scope'] = scope
     LOG.clear()
+    global SNAPSHOT
+    SNAPSHOT = cname in ('dataelement', 'default')
     try:
         data = u.schema.decode(u.xml, converter=R, **opts)
     except Exception as e:  # a valid document must decode
@@ -543,6 +581,10 @@ LEAK_SITES = {
 }
 
 
+# C05-F11: DataElementConverter.element_encode reads `.tag` of data that is not a DataElement
+DE_LEAK_SITE = 'AttributeError:dataobjects.py:element_encode'
+
+
 def invalid_reasons(schema, xml2: str) -> Optional[set]:
     """classify every validation error of a re-encoded document; None = something else is wrong too"""
     out = set()
@@ -635,6 +677,9 @@ def known_match(case: dict, detail: Any) -> Optional[str]:
     if 'mutation' in case and isinstance(detail, dict) and detail.get('nonstr'):
         return 'C05-F8'
     if isinstance(detail, dict) and detail.get('outcome', '').startswith('raised-leak:'):
+        if case.get('converter') == 'dataelement' and case.get('leak_site') == DE_LEAK_SITE and \
+                (case.get('mutation') or {}).get('kind') in ('de-nonelem-root', 'de-nonelem-child'):
+            return 'C05-F11'
         if case.get('leak_site') in LEAK_SITES:
             return 'C05-F3'
     if isinstance(detail, dict) and detail.get('reasons'):
@@ -730,8 +775,14 @@ def mutate(rng, data, cname) -> Optional[tuple[Any, dict]]:
 def mutate_de(rng, d):
     els = list(d.iter())
     e = rng.choice(els)
-    kind = rng.choice(['drop', 'dup', 'retype', 'reorder', 'attr', 'tag', 'tail'])
+    kind = rng.choice(['drop', 'dup', 'retype', 'reorder', 'attr', 'tag', 'tail', 'tail', 'nonelem'])
     desc = {'kind': 'de-' + kind, 'tag': e.tag}
+    if kind == 'nonelem':
+        new = rng.choice([5, 'x', None, {'a': 1}, [1], []])
+        if len(e) and rng.random() < 0.7:
+            e[rng.randrange(len(e))] = new          # DataElement.__setitem__ does not check the type
+            return d, {'kind': 'de-nonelem-child', 'tag': e.tag, 'new': repr(new)}
+        return new, {'kind': 'de-nonelem-root', 'new': repr(new)}
     if kind == 'drop' and len(e):
         del e[rng.randrange(len(e))]
     elif kind == 'dup' and len(e):
@@ -817,6 +868,9 @@ def compare_model(ctx: Ctx, drv: Driver, u: Unit, cname: str, opts: dict, res: d
     """one-level and tree-level comparison of the captured calls with the Lean model"""
     if cname not in MODELLED:
         return
+    if opts.get('preserve_root'):
+        ctx.count('model:skipped(preserve_root: the root wrapper is not modelled)')
+        return
     table = SchemaTable()
     mapper = Mapper()
     use_ns = bool(opts.get('process_namespaces', True)) and not opts.get('strip_namespaces', False)
@@ -864,10 +918,13 @@ def compare_model(ctx: Ctx, drv: Driver, u: Unit, cname: str, opts: dict, res: d
             if ent[0] == 'enc':
                 _, obj, xe, level, ed, tabs = ent
                 reqs.append(dict(base, op='enc1', mapper=tabs, ty=facts_of(table, xe), name=xe.name, obj=L.canon(obj)))
-                meta.append(('enc1', cse, {'ok': ed_json(ed)}))
+                edj = ed_json(ed)
+                meta.append(('enc1', cse, {'error': 'raw'} if 'raw' in edj else {'ok': edj}))
             elif ent[0] == 'encerr':
                 _, obj, xe, level, err, tabs = ent
                 cl = 'caught' if isinstance(err, (ValueError, TypeError)) else 'leak'
+                if cl == 'leak' and cname == 'dataelement' and leak_site(err) == DE_LEAK_SITE:
+                    cl = 'leak:F11'     # the model describes the repaired behaviour (XMLSchemaTypeError)
                 reqs.append(dict(base, op='enc1', mapper=tabs, ty=facts_of(table, xe), name=xe.name, obj=L.canon(obj)))
                 meta.append(('enc1', cse, {'error': cl}))
     answers = drv.query(reqs)
@@ -892,9 +949,11 @@ def compare_model(ctx: Ctx, drv: Driver, u: Unit, cname: str, opts: dict, res: d
             got = ans['enc']
             if 'error' in got and got['error'] in ('nochild',):
                 got = {'error': 'caught'}
-            if got != want:
+            if want == {'error': 'leak:F11'} and got == {'error': 'caught'}:
+                ctx.known_hit('C05-F11')
+            elif got != want:
                 ctx.mismatch(f'{cname}: element_encode', dict(small, obj=None), want, got)
-            ctx.count('enc1:' + ('ok' if 'ok' in want else want['error']))
+            ctx.count(f'enc1/{cname}:' + ('ok' if 'ok' in want else want['error']))
 
 
 # ------------------------------------------------------------------------------------ content re-ordering helpers
@@ -1053,6 +1112,212 @@ def order_cases(ctx: Ctx, drv: Optional[Driver], u: Unit, res: dict, limit: int)
                 ctx.mismatch(f'{case["helper"]} ({case["form"]})', case, want, ans)
 
 
+
+# ------------------------------------------------------------------------------------ direct one-level calls
+
+DIRECT_XSD = ('<xs:schema xmlns:xs="http://www.w3.org/2001/XMLSchema"><xs:element name="root"><xs:complexType '
+              'mixed="true"><xs:sequence><xs:element name="a" type="xs:int" minOccurs="0" maxOccurs="unbounded"/>'
+              '<xs:element name="b" type="xs:int" minOccurs="0"/><xs:element name="l" minOccurs="0" maxOccurs="2">'
+              '<xs:simpleType><xs:list itemType="xs:int"/></xs:simpleType></xs:element></xs:sequence>'
+              '<xs:attribute name="a" type="xs:string"/><xs:attribute name="k" type="xs:string"/>'
+              '</xs:complexType></xs:element></xs:schema>')
+
+# witnesses of the `_counterexample` theorems of Props/C05.lean: (theorem, converter, options, attributes,
+# content as [name | cdata number, value], expected keys of the content that comes back)
+WITNESSES = [
+    ('dataelement_roundtrip_counterexample', 'dataelement', {}, [], [['a', 'DE:1'], [1, 'x'], [2, 'y']], ['a', '#']),
+    ('default_roundtrip_counterexample_noncontiguous', 'default', {}, [], [['a', 1], ['b', 2], ['a', 3]],
+     ['a', 'a', 'b']),
+    ('default_roundtrip_counterexample_mixed_text', 'default', {}, [], [[1, 'txt'], ['a', 1]], ['a']),
+    ('default_roundtrip_counterexample_key_collision', 'default', {'attr_prefix': ''}, [['a', 'x']], [['a', 1]],
+     ['a', 'a']),
+]
+
+
+def _direct_env():
+    if 'env' not in _ORD:
+        import xmlschema
+        schema = xmlschema.XMLSchema(DIRECT_XSD)
+        root = schema.elements['root']
+        kids = {e.name: e for e in root.type.content.iter_elements()}
+        table = SchemaTable()
+        ty = table.type_id(root, root.type)
+        _ORD['env'] = (schema, root, kids, table, ty)
+    return _ORD['env']
+
+
+def direct_decode(cname: str, opts: dict, attrs: list, content: list, text=None, xmlns=None):
+    """one real `element_decode` + `element_encode` of a hand-made ElementData at level 1, and the requests for
+    the same two calls on the Lean model"""
+    from xmlschema.converters import ElementData
+    from xmlschema.dataobjects import DataElement
+    schema, root, kids, table, ty = _direct_env()
+    conv = conv_classes()[cname](**opts)
+    cont, items = [], []
+    for k, v in content:
+        if isinstance(k, int):
+            cont.append((k, v, None))
+            items.append({'c': [k, L.canon(v)]})
+        else:
+            if isinstance(v, str) and v.startswith('DE:'):
+                v = DataElement(k, int(v[3:]))
+            xc = kids.get(k)
+            cont.append((k, v, xc))
+            items.append({'n': [k, bool(xc.is_single()) if xc is not None else False, L.canon(v)]})
+    data = ElementData('root', text, cont or None, list(attrs), xmlns)
+    hd = {'tag': 'root', 'attrs': [[k, L.canon(v)] for k, v in attrs], 'xmlns': [list(p) for p in (xmlns or [])]}
+    if text is not None:
+        hd['text'] = L.canon(text)
+    use_ns = bool(opts.get('process_namespaces', True))
+    base = {'conv': cname, 'useNs': use_ns, 'sch': table.facts, 'opts': opts,
+            'mapper': {'tags': [], 'attrs': []}}
+    try:
+        r = conv.element_decode(data, root, None, 1)
+        want_dec = L.canon(r)
+    except AssertionError:
+        r, want_dec = None, {'a': ['!raise', 'AssertionError']}
+    except Exception as e:  # noqa
+        r, want_dec = None, {'a': ['!raise', type(e).__name__]}
+    reqs = [dict(base, op='dec1', ty=ty, hd=hd, items=items)]
+    wants = [('dec1', want_dec)]
+    keys = None
+    if r is not None or want_dec is None:
+        req, want, keys = direct_encode(cname, opts, r)
+        reqs.append(req)
+        wants.append(('enc1', want))
+    return reqs, wants, keys
+
+
+def direct_encode(cname: str, opts: dict, obj):
+    schema, root, kids, table, ty = _direct_env()
+    conv = conv_classes()[cname](**opts)
+    use_ns = bool(opts.get('process_namespaces', True))
+    keys = None
+    try:
+        ed = conv.element_encode(obj, root, 1)
+        edj = ed_json(ed)
+        want = {'error': 'raw'} if 'raw' in edj else {'ok': edj}
+        if 'raw' not in edj:
+            keys = ['#' if 'c' in it else it['n'][0] for it in edj['items']]
+    except (ValueError, TypeError):
+        want = {'error': 'caught'}
+    except Exception as e:  # noqa
+        want = {'error': 'leak:F11' if cname == 'dataelement' and leak_site(e) == DE_LEAK_SITE else 'leak'}
+    req = {'conv': cname, 'useNs': use_ns, 'sch': table.facts, 'opts': opts, 'op': 'enc1', 'ty': ty, 'name': 'root',
+           'mapper': unmap_tables(conv, obj, root), 'obj': L.canon(obj)}
+    return req, want, keys
+
+
+def rand_value(rng, depth=0):
+    from xmlschema.dataobjects import DataElement
+    r = rng.random()
+    if r < 0.35:
+        return rng.choice([1, 0, 'x', '', True, 1.5, None])
+    if r < 0.55 and depth < 2:
+        return {rng.choice(['@k', '$', 'a', 'zz', '#1']): rand_value(rng, depth + 1) for _ in range(rng.choice([0, 1, 2]))}
+    if r < 0.85 and depth < 2:
+        return [rand_value(rng, depth + 1) for _ in range(rng.choice([0, 1, 2, 3]))]
+    return rng.choice([None, 7, 'y'])
+
+
+def direct_cases(ctx: Ctx, drv: Optional[Driver], n: int) -> None:
+    """hand-made one-level inputs: the witnesses of the `_counterexample` theorems (replayed on the real
+    converters: the loss must show on the real code too) and random ElementData / data objects that reach the
+    branches which documents decoded from valid instances do not (list values, empty lists, foreign keys,
+    objects that are not DataElements, adjacent cdata parts)"""
+    from xmlschema.dataobjects import DataElement
+    rng = ctx.rng
+    reqs, metas = [], []
+    for thm, cname, opts, attrs, content, expect in WITNESSES:
+        case = {'witness': thm, 'converter': cname, 'options': opts, 'attrs': attrs, 'content': content}
+        ctx.case(case, True, tag='witness')
+        rq, wants, keys = direct_decode(cname, opts, attrs, content)
+        if keys != expect:
+            # the theorem says what the *model* loses; the real code must lose the same
+            ctx.mismatch(f'witness of {thm}: the real converter returns other content keys', case, keys, expect)
+        ctx.traces += 1
+        for q, w in zip(rq, wants):
+            reqs.append(q)
+            metas.append((case, w))
+    for i in range(n):
+        cname = rng.choice(['default', 'default', 'dataelement'])
+        if cname == 'default':
+            opts = rng.choice([{}, {'cdata_prefix': '#'}, {'force_list': True}, {'force_dict': True}, {'attr_prefix': ''},
+                               {'attr_prefix': None}, {'text_key': None}, {'cdata_prefix': '#', 'force_list': True},
+                               {'process_namespaces': False}, {'attr_prefix': '_', 'text_key': '#text'}])
+        else:
+            opts = {}
+        if rng.random() < 0.5:
+            # decode side
+            names = rng.choice([['a'], ['a', 'b'], ['a', 'b', 'l'], ['b', 'l']])   # declared children only (Item.child has a declaration)
+            content = []
+            for _ in range(rng.choice([0, 1, 2, 3, 4, 5])):
+                if rng.random() < 0.25:
+                    content.append([len(content) + 1, rng.choice(['t', 'u v', ''])])
+                else:
+                    k = rng.choice(names)
+                    if cname == 'dataelement':
+                        v = DataElement(k, rng.choice([1, None, 'x'])) if rng.random() < 0.9 else rng.choice([5, None, [1]])
+                    else:
+                        v = rand_value(rng) if k != 'l' else rng.choice([[1, 2], [], None, [3]])
+                    content.append([k, v])
+            attrs = rng.choice([[], [], [['k', 'v']], [['a', 'x'], ['k', 'v']]])
+            text = rng.choice([None, None, 'txt', 5]) if not content or rng.random() < 0.2 else None
+            xmlns = rng.choice([None, None, [('p', 'urn:p')], [('', 'urn:d'), ('p', 'urn:p')]])
+            case = {'direct': 'decode', 'converter': cname, 'options': opts, 'attrs': attrs, 'text': text,
+                    'xmlns': xmlns, 'content': [[k, L.canon(v)] for k, v in content]}
+            rq, wants, _ = direct_decode(cname, opts, attrs, content, text, xmlns)
+        else:
+            if cname == 'dataelement':
+                if rng.random() < 0.3:
+                    obj = rng.choice([None, 5, 'x', {'a': 1}, [1], []])
+                else:
+                    obj = DataElement(rng.choice(['root', 'root', 'zz']), rng.choice([None, 1, 't']),
+                                      rng.choice([None, {'k': 'v'}, {'k': 'v', 'zz': 1}]),
+                                      xmlns=rng.choice([None, [('p', 'urn:p')]]))
+                    for _ in range(rng.choice([0, 1, 2, 3])):
+                        c = DataElement(rng.choice(['a', 'b', 'zz']), rng.choice([1, None]))
+                        c.tail = rng.choice([None, None, 't', 5])
+                        obj.append(c)
+                    if len(obj) and rng.random() < 0.2:
+                        obj[rng.randrange(len(obj))] = rng.choice([5, None, 'x'])
+            else:
+                r = rng.random()
+                if r < 0.25:
+                    obj = rng.choice([None, 5, 'x', '', 0, [], [1], [[1]], 1.5, True])
+                else:
+                    keys = ['$', '@k', '@a', '@', '@xmlns:p', '@xmlns', 'xmlns:p', '#1', '#x', '#', 'a', 'b', 'l', 'zz',
+                            '_k', '#text', 'k', 'p:a']
+                    obj = {}
+                    for _ in range(rng.choice([0, 1, 2, 3, 4])):
+                        k = rng.choice(keys)
+                        obj[k] = 'urn:p' if 'xmlns' in k else rand_value(rng)
+            case = {'direct': 'encode', 'converter': cname, 'options': opts, 'obj': L.canon(obj)}
+            q, w, _ = direct_encode(cname, opts, obj)
+            rq, wants = [q], [('enc1', w)]
+        ctx.case(case, True, tag=f'direct/{cname}')
+        for q, w in zip(rq, wants):
+            reqs.append(q)
+            metas.append((case, w))
+    if drv is None:
+        return
+    for (case, (kind, want)), ans in zip(metas, drv.query(reqs)):
+        ctx.traces += 1
+        if 'err' in ans:
+            ctx.mismatch(f'direct {kind}: driver error', case, want, ans)
+            continue
+        got = ans['v'] if kind == 'dec1' else ans['enc']
+        if kind == 'enc1' and want == {'error': 'leak:F11'} and got == {'error': 'caught'}:
+            ctx.known_hit('C05-F11')
+            ctx.count('direct-enc1:leak:F11')
+            continue
+        if kind == 'enc1' and 'error' in got and got['error'] == 'nochild':
+            got = {'error': 'caught'}
+        if got != want:
+            ctx.mismatch(f'direct {kind} ({case["converter"]})', case, want, got)
+        ctx.count(f'direct-{kind}:' + ('ok' if kind == 'dec1' and not (isinstance(want, dict) and want.get('a', [''])[0] == '!raise')
+                                     else 'raise' if kind == 'dec1' else 'ok' if 'ok' in want else want['error']))
+
 # ------------------------------------------------------------------------------------ run
 
 def build_units(ctx: Ctx, n_schemas: int, n_inst: int):
@@ -1137,6 +1402,7 @@ def run(ctx: Ctx, driver_ok: bool) -> None:
     # (the validator's loop is tied by C01) and evaluates the clause on the real code
     from harness.props import c01 as _c01
     _c01.encoder_family(ctx, Driver('drv_c01') if driver_ok else None, ctx.pick(40, 300), known_fid='C05-F10')
+    direct_cases(ctx, drv, ctx.pick(600, 6000))
     explore(ctx, drv, ctx.pick(40, 250), ctx.pick(3, 5), ctx.pick(4, 6))
     ctx.extra['explanation'] = ('seeded random schemas x valid instances x 5 converter classes x options; per case: '
                                 'round trip on the real code, mutated-data strict encode, Lean model comparison '
